@@ -157,3 +157,355 @@ Corollary read_calls_init_bytes_ok strict fuel orc inp sizes out e : bytes_ok in
 Proof.
   intros Hb. apply read_calls_bytes_ok; [exact b_init_valid|apply (bytes_ok_zeros 8)|assumption].
 Qed.
+
+(* ------------------------------------------------------------ (b) the determined output *)
+
+Definition pmap (w : list Z) (x : list Z * bool) : list Z * bool := (w ++ fst x, snd x).
+
+Lemma pmap_nil x : pmap [] x = x.
+Proof. destruct x; reflexivity. Qed.
+
+Lemma pmap_pmap a b x : pmap a (pmap b x) = pmap (a ++ b) x.
+Proof. unfold pmap. cbn [fst snd]. now rewrite app_assoc. Qed.
+
+(* Specification function (no Go counterpart): the output determined by a packed string that
+   may be cut anywhere.  Complete items contribute what [unpack] gives for them; the cut last
+   item contributes the whole words it determines (its tag word if all bytes of that word are
+   present; the literal words that are completely present); the flag says whether the string
+   is a complete sequence of items (= [unpack] accepts). *)
+Fixpoint unpack_partial_f (fuel : nat) (src : list Z) : list Z * bool :=
+  match src with
+  | [] => ([], true)
+  | tag :: s =>
+    match fuel with
+    | O => ([], false)
+    | S f =>
+      match take_bits 8 tag s with
+      | None => ([], false)
+      | Some (w, s1) =>
+        if tag =? 0 then
+          match s1 with
+          | [] => (w, false)
+          | n :: s2 => pmap (w ++ zeros (8 * Z.to_nat n)) (unpack_partial_f f s2)
+          end
+        else if tag =? 255 then
+          match s1 with
+          | [] => (w, false)
+          | n :: s2 =>
+            let k := (8 * Z.to_nat n)%nat in
+            if (length s2 <? k)%nat then (w ++ firstn (8 * (length s2 / 8)) s2, false)
+            else pmap (w ++ firstn k s2) (unpack_partial_f f (skipn k s2))
+          end
+        else pmap w (unpack_partial_f f s1)
+      end
+    end
+  end.
+
+Definition unpack_partial (src : list Z) : list Z * bool := unpack_partial_f (length src) src.
+
+Definition verdict (ok : bool) : rerr := if ok then EOF else UnexpectedEOF.
+
+Lemma unpack_partial_f_fuel : forall f1 f2 src,
+  (length src <= f1)%nat -> (length src <= f2)%nat ->
+  unpack_partial_f f1 src = unpack_partial_f f2 src.
+Proof.
+  induction f1 as [|f1 IH]; intros f2 src H1 H2.
+  - destruct src; [destruct f2; reflexivity|simpl in H1; lia].
+  - destruct src as [|tag s]; [destruct f2; reflexivity|].
+    destruct f2 as [|f2]; [simpl in H2; lia|].
+    simpl in H1, H2. cbn [unpack_partial_f].
+    destruct (take_bits 8 tag s) as [[w s1]|] eqn:E; [|reflexivity].
+    apply take_bits_length in E. destruct E as (_ & E & _).
+    destruct (tag =? 0).
+    { destruct s1 as [|n s2]; [reflexivity|]. simpl in E. rewrite (IH f2 s2) by lia. reflexivity. }
+    destruct (tag =? 255).
+    { destruct s1 as [|n s2]; [reflexivity|]. simpl in E. cbv zeta.
+      destruct (length s2 <? 8 * Z.to_nat n)%nat; [reflexivity|].
+      rewrite (IH f2 (skipn (8 * Z.to_nat n) s2)); [reflexivity| |]; rewrite skipn_length; lia. }
+    rewrite (IH f2 s1) by lia. reflexivity.
+Qed.
+
+Lemma unpack_partial_nil : unpack_partial [] = ([], true).
+Proof. reflexivity. Qed.
+
+(* the unfolding equation at canonical fuel *)
+Lemma unpack_partial_cons tag s :
+  unpack_partial (tag :: s) =
+  match take_bits 8 tag s with
+  | None => ([], false)
+  | Some (w, s1) =>
+    if tag =? 0 then
+      match s1 with
+      | [] => (w, false)
+      | n :: s2 => pmap (w ++ zeros (8 * Z.to_nat n)) (unpack_partial s2)
+      end
+    else if tag =? 255 then
+      match s1 with
+      | [] => (w, false)
+      | n :: s2 =>
+        let k := (8 * Z.to_nat n)%nat in
+        if (length s2 <? k)%nat then (w ++ firstn (8 * (length s2 / 8)) s2, false)
+        else pmap (w ++ firstn k s2) (unpack_partial (skipn k s2))
+      end
+    else pmap w (unpack_partial s1)
+  end.
+Proof.
+  unfold unpack_partial. cbn [length unpack_partial_f].
+  destruct (take_bits 8 tag s) as [[w s1]|] eqn:E; [|reflexivity].
+  apply take_bits_length in E. destruct E as (_ & E & _).
+  destruct (tag =? 0).
+  { destruct s1 as [|n s2]; [reflexivity|]. simpl in E.
+    rewrite (unpack_partial_f_fuel (length s) (length s2) s2) by lia. reflexivity. }
+  destruct (tag =? 255).
+  { destruct s1 as [|n s2]; [reflexivity|]. simpl in E. cbv zeta.
+    destruct (length s2 <? 8 * Z.to_nat n)%nat; [reflexivity|].
+    rewrite (unpack_partial_f_fuel (length s) (length (skipn (8 * Z.to_nat n) s2))); [reflexivity| |];
+      rewrite ?skipn_length; lia. }
+  rewrite (unpack_partial_f_fuel (length s) (length s1) s1) by lia. reflexivity.
+Qed.
+
+(* on accepted strings it is the one-shot output; the flag is [unpack]'s verdict *)
+Lemma unpack_partial_unpack_s : forall n src, (length src <= n)%nat ->
+  match unpack_s true src with
+  | Some out => unpack_partial src = (out, true)
+  | None => snd (unpack_partial src) = false
+  end.
+Proof.
+  induction n as [|n IH]; intros src Hn.
+  { destruct src; [reflexivity|simpl in Hn; lia]. }
+  destruct src as [|tag s]; [reflexivity|]. cbn [length] in Hn.
+  rewrite unpack_s_cons, unpack_partial_cons.
+  destruct (take_bits 8 tag s) as [[w s1]|] eqn:E; [|reflexivity].
+  apply take_bits_length in E. destruct E as (_ & E & _).
+  destruct (tag =? 0).
+  { destruct s1 as [|c s2]; [reflexivity|]. cbn [length] in E.
+    specialize (IH s2 ltac:(lia)). destruct (unpack_s true s2) as [r|]; cbn [option_map].
+    - rewrite IH. unfold pmap. cbn [fst snd]. now rewrite app_assoc.
+    - unfold pmap. cbn [snd]. exact IH. }
+  destruct (tag =? 255).
+  { destruct s1 as [|c s2]; [reflexivity|]. cbn [length] in E. cbv zeta. rewrite andb_true_l.
+    destruct (length s2 <? 8 * Z.to_nat c)%nat eqn:El; [reflexivity|].
+    specialize (IH (skipn (8 * Z.to_nat c) s2) ltac:(rewrite skipn_length; lia)).
+    destruct (unpack_s true (skipn (8 * Z.to_nat c) s2)) as [r|]; cbn [option_map].
+    - rewrite IH. unfold pmap. cbn [fst snd].
+      replace (8 * Z.to_nat c - length s2)%nat with O by lia.
+      change (zeros 0) with (@nil Z). cbn [app]. now rewrite app_assoc.
+    - unfold pmap. cbn [snd]. exact IH. }
+  specialize (IH s1 ltac:(lia)). destruct (unpack_s true s1) as [r|]; cbn [option_map].
+  - rewrite IH. reflexivity.
+  - unfold pmap. cbn [snd]. exact IH.
+Qed.
+
+Theorem unpack_partial_unpack src :
+  match unpack src with
+  | Some out => unpack_partial src = (out, true)
+  | None => snd (unpack_partial src) = false
+  end.
+Proof. apply (unpack_partial_unpack_s (length src)). lia. Qed.
+
+(* ------------------------------------------------------------ (b) ReadWord / Read against it *)
+
+(* total denotation of a reader state: what will be handed out, and whether the end is clean *)
+Definition EP (st : rstate) (inp : list Z) : list Z * bool :=
+  let k := (8 * Z.to_nat (r_literal st))%nat in
+  pmap (zeros (8 * Z.to_nat (r_zeroes st)))
+       (if (length inp <? k)%nat then (firstn (8 * (length inp / 8)) inp, false)
+        else pmap (firstn k inp) (unpack_partial (skipn k inp))).
+
+Definition EP' (st : rstate) (inp : list Z) : list Z * bool :=
+  match r_err st with Some _ => ([], false) | None => EP st inp end.
+
+Lemma EP_idle s : EP (mkR 0 0 None) s = unpack_partial s.
+Proof.
+  unfold EP. cbn [r_zeroes r_literal]. change (8 * Z.to_nat 0)%nat with O.
+  cbn [Nat.ltb Nat.leb skipn firstn zeros repeat]. now rewrite !pmap_nil.
+Qed.
+
+Lemma EP_zero z l inp : 0 < z ->
+  EP (mkR z l None) inp = pmap (zeros 8) (EP (mkR (z - 1) l None) inp).
+Proof.
+  intros Hz. unfold EP. cbn [r_zeroes r_literal]. rewrite pmap_pmap, zeros_app.
+  f_equal. f_equal. lia.
+Qed.
+
+Lemma EP_lit l inp : 0 < l -> (8 <= length inp)%nat ->
+  EP (mkR 0 l None) inp = pmap (firstn 8 inp) (EP (mkR 0 (l - 1) None) (skipn 8 inp)).
+Proof.
+  intros Hl H8. unfold EP. cbn [r_zeroes r_literal]. change (zeros (8 * Z.to_nat 0)) with (@nil Z).
+  rewrite !pmap_nil. rewrite skipn_length.
+  replace (8 * Z.to_nat l)%nat with (8 + 8 * Z.to_nat (l - 1))%nat by lia.
+  destruct (length inp <? 8 + 8 * Z.to_nat (l - 1))%nat eqn:E1.
+  - replace (length inp - 8 <? 8 * Z.to_nat (l - 1))%nat with true by lia.
+    unfold pmap. cbn [fst snd]. f_equal.
+    replace (8 * (length inp / 8))%nat with (8 + 8 * ((length inp - 8) / 8))%nat by lia.
+    apply firstn_add.
+  - replace (length inp - 8 <? 8 * Z.to_nat (l - 1))%nat with false by lia.
+    rewrite skipn_skipn'. rewrite (Nat.add_comm (8 * Z.to_nat (l - 1)) 8).
+    rewrite pmap_pmap, firstn_add. reflexivity.
+Qed.
+
+Lemma EP_lit_short l inp : 0 < l -> (length inp < 8)%nat -> EP (mkR 0 l None) inp = ([], false).
+Proof.
+  intros Hl H8. unfold EP. cbn [r_zeroes r_literal]. change (zeros (8 * Z.to_nat 0)) with (@nil Z).
+  rewrite pmap_nil. replace (length inp <? 8 * Z.to_nat l)%nat with true by lia.
+  replace (length inp / 8)%nat with O by lia. reflexivity.
+Qed.
+
+(* one ReadWord call against the total denotation (validity / measure: [read_word_spec]) *)
+Lemma read_word_specP fast st inp st' inp' out :
+  rvalid st -> bytes_ok inp ->
+  read_word true fast st inp = (st', inp', out) ->
+  match out with
+  | RWord w => EP' st inp = pmap w (EP' st' inp')
+  | RErr e => exists ok, EP' st inp = ([], ok) /\ e = verdict ok
+  end.
+Proof.
+  destruct st as [z l e]. unfold rvalid. cbn [r_zeroes r_literal r_err].
+  intros (Hz & Hl & He) Hb. unfold read_word. cbn [r_err r_zeroes r_literal].
+  destruct e as [e|].
+  { inj3. exists false. unfold EP'. cbn [r_err]. split; [reflexivity|]. now apply He. }
+  destruct (0 <? z) eqn:Ez.
+  { inj3. unfold EP'. cbn [r_err]. apply EP_zero. lia. }
+  assert (z = 0) by lia. subst z.
+  destruct (0 <? l) eqn:El.
+  { destruct (8 <=? length inp)%nat eqn:E8.
+    - inj3. unfold EP'. cbn [r_err]. apply EP_lit; lia.
+    - assert (X : EP' (mkR 0 l None) inp = ([], false)).
+      { unfold EP'. cbn [r_err]. apply EP_lit_short; lia. }
+      destruct inp; inj3; exists false; rewrite X; split; reflexivity. }
+  assert (l = 0) by lia. subst l.
+  destruct inp as [|tag s].
+  { inj3. exists true. unfold EP'. cbn [r_err]. rewrite EP_idle. split; reflexivity. }
+  rewrite word_choice.
+  assert (X : EP' (mkR 0 0 None) (tag :: s) = unpack_partial (tag :: s)).
+  { unfold EP'. cbn [r_err]. apply EP_idle. }
+  rewrite X, unpack_partial_cons. clear X.
+  destruct (take_bits 8 tag s) as [[w s1]|] eqn:E;
+    [|inj3; exists false; split; reflexivity].
+  destruct (tag =? 0).
+  { destruct s1 as [|n s2]; inj3; unfold EP'; cbn [r_err].
+    - unfold pmap. cbn [fst snd]. now rewrite app_nil_r.
+    - rewrite <- pmap_pmap. f_equal. }
+  destruct (tag =? 255).
+  { destruct s1 as [|n s2]; inj3; unfold EP'; cbn [r_err].
+    - unfold pmap. cbn [fst snd]. now rewrite app_nil_r.
+    - cbv zeta. unfold EP. cbn [r_zeroes r_literal].
+      change (zeros (8 * Z.to_nat 0)) with (@nil Z). rewrite pmap_nil.
+      destruct (length s2 <? 8 * Z.to_nat n)%nat; [reflexivity|].
+      now rewrite pmap_pmap. }
+  inj3. unfold EP'. cbn [r_err]. now rewrite EP_idle.
+Qed.
+
+(* total denotation of the byte-level state *)
+Definition DP (b : bstate) (inp : list Z) : list Z * bool :=
+  pmap (skipn (b_idx b) (b_word b)) (EP' (b_r b) inp).
+
+Lemma DP_idx8 b inp : bvalid b -> b_idx b = 8%nat -> DP b inp = EP' (b_r b) inp.
+Proof.
+  intros (_ & Hw & _) Hi. unfold DP. rewrite Hi, skipn_all2 by lia. apply pmap_nil.
+Qed.
+
+Lemma read_loop_specP : forall fuel orc k st inp want got k' st' inp' got' oe,
+  bvalid st -> ((0 < want)%nat -> b_idx st = 8%nat) -> bytes_ok inp -> (want < fuel)%nat ->
+  read_loop true fuel orc k st inp want got = (k', st', inp', got', oe) ->
+  exists g, got' = got ++ g /\
+  match oe with
+  | None => DP st inp = pmap g (DP st' inp')
+  | Some e => exists ok, DP st inp = (g, ok) /\ e = verdict ok
+  end.
+Proof.
+  induction fuel as [|fuel IH]; intros orc k st inp want got k' st' inp' got' oe Hv Hi Hb Hf;
+    [lia|].
+  cbn [read_loop].
+  destruct (want =? 0)%nat eqn:Ew.
+  { inj5. exists []. rewrite app_nil_r, pmap_nil. split; reflexivity. }
+  destruct (snd (orc k) && negb (length got =? 0)%nat) eqn:Es.
+  { inj5. exists []. rewrite app_nil_r, pmap_nil. split; reflexivity. }
+  assert (Hi8 : b_idx st = 8%nat) by (apply Hi; lia).
+  pose proof Hv as (Hvr & Hvw & _).
+  rewrite (DP_idx8 st inp Hv Hi8).
+  destruct (read_word true (fst (orc k)) (b_r st) inp) as [[r' i'] [w|e]] eqn:Er;
+    pose proof Er as ErP; apply read_word_spec in Er; try assumption;
+    apply read_word_specP in ErP; try assumption.
+  2:{ inj5. exists []. rewrite app_nil_r. split; [reflexivity|]. exact ErP. }
+  destruct Er as (Hw & Hv' & Hb' & _ & _).
+  assert (Hvn : bvalid (mkB r' (b_word st) 8)).
+  { unfold bvalid. cbn [b_r b_word b_idx]. split; [assumption|]. split; [assumption|lia]. }
+  destruct (8 <=? want)%nat eqn:E8.
+  - intros H. apply IH in H; try assumption; [|reflexivity|lia].
+    destruct H as (g & Hg & H). exists (w ++ g). split; [now rewrite Hg, app_assoc|].
+    rewrite (DP_idx8 _ i' Hvn eq_refl) in H. cbn [b_r] in H. rewrite ErP.
+    destruct oe as [e|].
+    + destruct H as (ok & H1 & H2). exists ok. rewrite H1. split; [reflexivity|assumption].
+    + rewrite H. apply pmap_pmap.
+  - inj5. exists (firstn want w). split; [reflexivity|].
+    rewrite ErP. unfold DP. cbn [b_r b_word b_idx]. rewrite pmap_pmap, firstn_skipn. reflexivity.
+Qed.
+
+(* One Read(p) call against the total denotation: the bytes returned are the next bytes of the
+   denotation; an error is EOF exactly when the denotation ends cleanly with these bytes. *)
+Lemma read_call_specP orc k st inp n k' st' inp' got oe :
+  bvalid st -> bytes_ok inp -> (0 < n)%nat ->
+  read_call true orc k st inp n = (k', st', inp', got, oe) ->
+  match oe with
+  | None => DP st inp = pmap got (DP st' inp')
+  | Some e => exists ok, DP st inp = (got, ok) /\ e = verdict ok
+  end.
+Proof.
+  intros Hv Hb Hn. pose proof Hv as (Hvr & Hvw & Hvi). unfold read_call.
+  set (tail := skipn (b_idx st) (b_word st)).
+  set (pre := firstn n tail).
+  set (st1 := mkB (b_r st) (b_word st) (b_idx st + length pre)).
+  assert (Htl : length tail = (8 - b_idx st)%nat) by (unfold tail; rewrite skipn_length; lia).
+  assert (Hpl : length pre = Nat.min n (8 - b_idx st)) by (unfold pre; rewrite firstn_length; lia).
+  assert (Hv1 : bvalid st1).
+  { unfold bvalid, st1. cbn [b_r b_word b_idx]. split; [assumption|]. split; [assumption|lia]. }
+  assert (HD1 : DP st inp = pmap pre (DP st1 inp)).
+  { unfold DP, st1. cbn [b_r b_word b_idx]. rewrite pmap_pmap. f_equal.
+    fold tail. rewrite Nat.add_comm, <- skipn_skipn'. fold tail. unfold pre.
+    rewrite skipn_firstn_length, firstn_skipn. reflexivity. }
+  intros H. apply read_loop_specP in H; try assumption; [| |lia].
+  2:{ intros Hw. unfold st1. cbn [b_idx]. lia. }
+  destruct H as (g & -> & H). rewrite HD1.
+  destruct oe as [e|].
+  - destruct H as (ok & H1 & H2). exists ok. rewrite H1. split; [reflexivity|assumption].
+  - rewrite H. apply pmap_pmap.
+Qed.
+
+Theorem read_calls_specP : forall fuel orc k st inp sizes j,
+  bvalid st -> bytes_ok inp -> (bmeasure st inp < fuel)%nat ->
+  read_calls true fuel orc k st inp sizes j
+  = Some (fst (DP st inp), verdict (snd (DP st inp))).
+Proof.
+  induction fuel as [|fuel IH]; intros orc k st inp sizes j Hv Hb Hf; [lia|].
+  cbn [read_calls].
+  destruct (read_call true orc k st inp (S (sizes j))) as [[[[k' st'] inp'] got] [e|]] eqn:Ec;
+    pose proof Ec as EcP; apply read_call_spec in Ec; try assumption; try lia;
+    apply read_call_specP in EcP; try assumption; try lia.
+  - destruct EcP as (ok & -> & ->). reflexivity.
+  - destruct Ec as (_ & Hv' & Hb' & _ & Hm).
+    rewrite (IH orc k' st' inp' sizes (S j)) by (assumption || lia).
+    rewrite EcP. reflexivity.
+Qed.
+
+Lemma DP_init inp : DP b_init inp = unpack_partial inp.
+Proof.
+  unfold DP, b_init, EP'. cbn [b_r b_word b_idx r_init r_err].
+  fold r_init. change r_init with (mkR 0 0 None). rewrite EP_idle.
+  change (skipn 8 (zeros 8)) with (@nil Z). apply pmap_nil.
+Qed.
+
+(* For every input (accepted by the one-shot decoder or not), every sequence of request sizes
+   (each >= 1), every fast-path oracle and every short-read oracle: the Read calls hand out
+   exactly the determined output of the input, then report EOF if the input is a complete
+   sequence of items and UnexpectedEOF otherwise. *)
+Theorem read_calls_partial : forall orc sizes inp, bytes_ok inp ->
+  forall fuel, (2304 * length inp + 1 <= fuel)%nat ->
+  read_calls true fuel orc 0 b_init inp sizes 0
+  = Some (fst (unpack_partial inp), verdict (snd (unpack_partial inp))).
+Proof.
+  intros orc sizes inp Hb fuel Hf. rewrite <- DP_init. apply read_calls_specP.
+  - exact b_init_valid.
+  - assumption.
+  - unfold bmeasure, rmeasure, b_init, r_init. cbn [b_r b_idx r_zeroes r_literal r_err]. lia.
+Qed.
